@@ -38,6 +38,10 @@ struct Model {
     ping: Option<u64>,
     ack_step: Option<usize>,
     info_step: Option<usize>,
+    /// burst scripts only: frames that follow Client Information at the same instant race with the
+    /// (instant) routing; if one of them is not ignorable the connection may legitimately end before
+    /// the routing result is written - then this shorter sequence is accepted as well
+    alt_expect: Option<Vec<String>>,
 }
 
 fn expected_id(st: St) -> Option<i32> {
@@ -64,6 +68,7 @@ fn model(sc: &ConnScenario) -> Model {
         ping: None,
         ack_step: None,
         info_step: None,
+        alt_expect: None,
     };
     let secret = sc.cfg.secret.is_some();
     let has_target = matches!(&sc.services.discovery.default.res, DiscRes::Targets(t) if !t.is_empty());
@@ -90,6 +95,21 @@ fn model(sc: &ConnScenario) -> Model {
                 (0x04, Some(Body::KeepAlive { .. })) | (0x02, Some(Body::Raw { .. })) | (0x06, Some(Body::ResourcePack { result: 0..=7 })) | (0x01, Some(Body::Raw { .. })) => continue,
                 (0x00, Some(Body::ClientInfo { .. })) => {
                     m.info_step = Some(i);
+                    if sc.client.script_gap_ns == 0 {
+                        let racy = steps[i + 1..].iter().take_while(|s| !matches!(s, Step::Close { .. })).any(|s| {
+                            !matches!(
+                                s,
+                                Step::WaitNs { .. }
+                                    | Step::Frame { id: 0x04, body: Body::KeepAlive { .. } }
+                                    | Step::Frame { id: 0x02, body: Body::Raw { .. } }
+                                    | Step::Frame { id: 0x06, body: Body::ResourcePack { result: 0..=7 } }
+                                    | Step::Frame { id: 0x00, body: Body::ClientInfo { .. } }
+                            )
+                        });
+                        if racy {
+                            m.alt_expect = Some(m.expect.clone());
+                        }
+                    }
                     if has_target {
                         if secret {
                             m.expect.push("StoreCookie:passage:authentication".into());
@@ -288,7 +308,7 @@ fn generate(rng: &mut Rng) -> ConnScenario {
     let mut client = ClientSpec::base(rng, intent);
     client.script = Some(script);
     client.close_on_end_ns = None;
-    ConnScenario {
+    let mut sc = ConnScenario {
         seed: rng.next_u64(),
         cfg: ConnCfg { secret, expiry: None, max_frame: None, client_addr: gen_addr(rng) },
         wall: Wall::default(),
@@ -296,7 +316,13 @@ fn generate(rng: &mut Rng) -> ConnScenario {
         client,
         wplan: vec![],
         cap_ns: secs(120),
+    };
+    zero_time_noise(rng, &mut sc);
+    // whole scripts in one burst: every frame is in the pipe before the server reads the first
+    if rng.chance(1, 3) {
+        sc.client.script_gap_ns = 0;
     }
+    sc
 }
 
 pub fn check(sc: &ConnScenario, out: &ConnOutcome, rep: &mut RunReport) {
@@ -313,7 +339,7 @@ pub fn check(sc: &ConnScenario, out: &ConnOutcome, rep: &mut RunReport) {
     }
     match m.dont_care_from {
         None => {
-            if obs != m.expect {
+            if obs != m.expect && m.alt_expect.as_ref() != Some(&obs) {
                 rep.violate("order_matches_automaton", format!("script {} -> expected {:?}, observed {:?} (result {} {})", brief(&steps), m.expect, obs, out.result, out.result_text));
             }
         }
@@ -420,7 +446,7 @@ impl Check for C06 {
         generate(rng)
     }
     fn execute(&self, sc: &ConnScenario) -> RunReport {
-        if !conn_domain_ok(sc) || sc.client.script.is_none() || !sc.client.mutations.is_empty() || !sc.client.cuts.is_empty() {
+        if !conn_domain_ok(sc) || sc.client.script.is_none() || !sc.client.mutations.is_empty() || !transport_is_zero_time(sc) {
             return RunReport::default();
         }
         // latencies must be zero in this check
